@@ -34,7 +34,7 @@ ASSUMPTIONS = [
 PROBES = ["rules_total", "cat_accessible", "cat_tuned", "cat_failed", "all_three_in_one_run", "tuned_via_variable", "tuned_literal",
           "nested_depth_3", "nested_rule_tuned", "premium_runs", "default_bg_runs", "shared_var_sheet", "root_direct_color",
           "fallback_used", "important_present", "prop_case_present", "alpha_text_tuned", "api_calls", "dir_invocation",
-          "mode0", "mode1", "mode2", "report_present", "subprocess_crosscheck", "multi_file_runs", "inplace_model_evaluated", "inplace_model_matched", "real_interpreter_runs", "non_utf8_locale_runs", "second_invocation_in_process_runs"]
+          "mode0", "mode1", "mode2", "report_present", "subprocess_crosscheck", "multi_file_runs", "inplace_model_evaluated", "inplace_model_matched", "real_interpreter_runs", "non_utf8_locale_runs", "second_invocation_in_process_runs", "invoked_from_non_main_thread", "directory_named_like_a_stylesheet", "long_var_chain"]
 
 C08_FEATURES = tuple(f for f in gen.ALL_FEATURES if f not in gen.C09_ONLY)
 
@@ -59,7 +59,8 @@ def generate(rseed, tier, idx):
     if g.random() < 0.03:  # nothing to do at all: empty or comment-only stylesheet
         ast = {"items": [{"t": "raw", "text": "/* nothing here */"}] if g.random() < 0.5 else [], "style": "pretty"}
     env = {"cwd": e.choice(("cwd", "cwd", "tree")), "tty": e.random() < 0.3, "argform": e.choice(("abs", "abs", "rel")),
-           "inv": e.choice(("file", "file", "dir")), "name": e.choice(("a.css", "style.css", "my style.css", "thème.css"))}
+           "inv": e.choice(("file", "file", "dir")), "name": e.choice(("a.css", "style.css", "my style.css", "thème.css", "a.css", "normalize.css/normalize.css", "site.css.d/main.css", "cafe\u0301.css"))}
+    env["in_thread"] = e.random() < 0.08  # the command called from a worker thread of a larger program
     tr = {"prop": ID, "ast": ast, "feats": feats, "settings": settings, "env": env, "subproc": idx % 16 == 3}
     if g.random() < 0.2:
         # the judged invocation is the SECOND one in its process (a wrapper script, a test harness, a watch loop):
@@ -72,12 +73,12 @@ def generate(rseed, tier, idx):
         if env["real"] == "C":
             # under an ASCII locale Python decodes non-ASCII FILE NAMES with surrogateescape, which no UTF-8 report can
             # hold: that is the interpreter's limitation, not something C08 quantifies over. Contents stay non-ASCII.
-            env["name"] = e.choice(("a.css", "style.css", "my style.css"))
+            env["name"] = e.choice(("a.css", "style.css", "my style.css", "normalize.css/normalize.css"))
     if g.random() < 0.2:
         # a directory of two stylesheets: custom properties defined in one, referenced (without definition) in the other
         f2 = gen.draw_features(g, C08_FEATURES, 0.3)
         ast2 = gen.gen_sheet(g, f2, settings, max_rules=4, tag="F2")
-        names = g.sample(("a.css", "sub/b.css", "zz.css", "th\u00e8me.css"), 2)
+        names = g.sample(("a.css", "sub/b.css", "zz.css", "th\u00e8me.css", "vendor.css/b2.css"), 2)
         if g.random() < 0.25 and "root-direct-color" not in feats and "root-direct-color" not in f2:
             names = ["a.css", "sub/a.css"]  # the same base name in two directories (the report names files by base name)
         definer, user = (ast, ast2) if g.random() < 0.5 else (ast2, ast)
@@ -338,7 +339,9 @@ def execute(trace):
             bump("second_invocation_in_process_runs")
         else:
             res = base.in_fork(cli_run.cli_exec, root, target, settings, cwd_rel=env["cwd"], order_key=trace.get("order_key"),
-                               tty=env["tty"], argform=env["argform"], timeout=200)
+                               tty=env["tty"], argform=env["argform"], in_thread=bool(env.get("in_thread")), timeout=200)
+            if env.get("in_thread"):
+                bump("invoked_from_non_main_thread")
         after = seams.snapshot(root)
         out_ents = {n: after.get("tree/" + n[:-4] + "_cm.css") for n, _ in sheets}
         out_ent = out_ents[name]
@@ -358,6 +361,10 @@ def execute(trace):
             bump("dir_invocation")
         if multi:
             bump("multi_file_runs")
+        if any(".css" in part for n, _ in sheets for part in n.split("/")[:-1]):
+            bump("directory_named_like_a_stylesheet")
+        if any(t.count("var(") >= 9 for _n, t in sheets):
+            bump("long_var_chain")
 
         # reference reading of the input(s); selectors are unique across the files of a run
         def bn(x):
@@ -396,7 +403,10 @@ def execute(trace):
 
         if res["exit"] != 0:
             V("cli-raised", sheet_feats, exit=res["exit"], exc=res.get("exc"))
-        if res["err_paths"] or any(e is None or e[0] != "f" for e in out_ents.values()):
+        # a DIRECTORY whose name ends in .css (normalize.css/normalize.css) is itself picked up by a directory run and
+        # reported as unreadable: that line is about the directory, not about a stylesheet of this run (C18's subject)
+        mine = {"<SBX>/tree/" + n for n, _ in sheets}
+        if (set(res["err_paths"]) & mine) or any(e is None or e[0] != "f" for e in out_ents.values()):
             V("no-output", sheet_feats, stderr_tail=res["err"][-400:])
             return {"violations": vio, "digest": base.digest(events), "nontrivial": True, "stats": stats, "steps": len(res["io"]), "skipped": 0}
         o_by_sel, odefs_of = {}, {}
@@ -560,6 +570,7 @@ def _subprocess_crosscheck(root, name, text, target, settings, env, res, out_ent
     try:
         for d in ("tree", "cwd", "home", "tmp"):
             os.makedirs(os.path.join(r2, d), exist_ok=True)
+        os.makedirs(os.path.dirname(os.path.join(r2, "tree", name)), exist_ok=True)
         with open(os.path.join(r2, "tree", name), "wb") as fh:
             fh.write(text.encode("utf-8"))
         cwd = os.path.join(r2, env["cwd"])
